@@ -191,7 +191,7 @@ def run(cfg):
     ks = [("laplace", None), ("helmholtz", 1.25), ("helmholtz", 1.0 + 0.5j), ("modified", 0.75),
           ("maxwell", 1.5), ("maxwell", 0.75 + 0.5j)]
     with bc.PurePython(), np.errstate(all="ignore"):
-        for gname, cfgs in GRID_CFG["quick" if strength == "quick" else "thorough"]:
+        for gname, cfgs in GRID_CFG["quick" if strength == "quick" else "thorough"]:  # thorough and escalated
             run_family(api, gname, cfgs, ks, results, fails, 1e-10, "python-body")
         symmetry_refinement(api, "tet", 1.25 + 0.25j, results, fails, (1, 2, 3), "python-body")
     if strength == "thorough":
